@@ -5,10 +5,12 @@ import importlib
 import os
 import re
 import sys
+import zlib
 
 from . import programs
 
-TRAVERSAL_DEFECTS = ['notclass', 'nobase', 'noprocess', 'unannotated_some', 'unannotated_all', 'generic1', 'generic2']
+TRAVERSAL_DEFECTS = ['notclass', 'nobase', 'noprocess', 'unannotated_some', 'unannotated_default', 'unannotated_all', 'generic1',
+                     'generic2']
 ALL_DEFECTS = TRAVERSAL_DEFECTS + ['rec_noproto', 'rec_noaddl']
 
 
@@ -28,7 +30,21 @@ def from_program(prog, unnamed_switch=False, generic=()):
                 m['head'] = programs.oneof_head(n['id'], idx)
             marks.append(m)
         decls.append({'id': n['id'], 'defect': 'none', 'marks': marks, 'mode': n.get('mode', 'thread'),
-                      'generic': n['id'] in generic})
+                      'generic': n['id'] in generic and not n.get('derives'), 'derives': n.get('derives'),
+                      'plainbase': bool(n.get('plainbase')),
+                      # every other generic base documents its run method: the node made by build_node inherits it
+                      'gdoc': zlib.crc32(n['id'].encode()) % 2 == 0})
+    byid = {x['id']: x for x in decls}
+    for x in decls:
+        # a subclass shows the documentation of the run method it inherits: the root ancestor's, or - when that one
+        # was declared through build_node, whose generated method has no doc - its own class doc
+        root = x
+        while root.get('derives'):
+            root = byid[root['derives']]
+        if root is not x:
+            x['root'] = root['id']
+            x['root_generic'] = bool(root['generic'])
+            x['root_gdoc'] = bool(root['generic'] and root.get('gdoc'))
     d = {'name': prog.get('name', '?'), 'decls': decls, 'input': prog['input'], 'output': prog['output'],
          'unnamed_switch': unnamed_switch}
     return d
@@ -37,8 +53,16 @@ def from_program(prog, unnamed_switch=False, generic=()):
 def expected_entry(x):
     """what the viewer must show for a real node (mirrors emit())"""
     if x.get('generic'):
-        return {'ename': x['id'], 'everbose': 'null', 'edoc': 'generic base of %s' % x['id'], 'egeneric': True}
-    return {'ename': x['id'], 'everbose': 'Node ' + x['id'], 'edoc': 'does the work of %s' % x['id'], 'egeneric': False}
+        return {'ename': x['id'], 'everbose': 'null',
+                'edoc': ('generic work of %s' if x.get('gdoc') else 'generic base of %s') % x['id'], 'egeneric': True,
+                'etype': 'None' if x.get('plainbase') else 'processor'}
+    if x.get('derives'):
+        # a plain subclass of a concrete node: own name, the parent's run method (and its doc)
+        doc = ('generic work of %s' % x['root']) if x.get('root_gdoc') else \
+              ('generated node %s' % x['id']) if x.get('root_generic') else 'does the work of %s' % x.get('root', x['derives'])
+        return {'ename': x['id'], 'everbose': 'Node ' + x['id'], 'edoc': doc, 'egeneric': False, 'etype': 'processor'}
+    return {'ename': x['id'], 'everbose': 'Node ' + x['id'], 'edoc': 'does the work of %s' % x['id'], 'egeneric': False,
+            'etype': 'None' if x.get('plainbase') else 'processor'}
 
 
 def to_tla(d):
@@ -77,7 +101,10 @@ def mutations(d):
     byid = {x['id']: x for x in d['decls']}
     dests = {m['node'] for x in d['decls'] for m in x['marks'] if m['kind'] == 'rec'}
     starts = {m['start'] for x in d['decls'] for m in x['marks'] if m['kind'] == 'rec'}
+    parents = {x.get('derives') for x in d['decls']} - {None}
     for x in d['decls']:
+        if x['id'] in parents:
+            continue              # a defect of a parent class is a defect of its subclasses too: not a SINGLE defect
         for defect in ALL_DEFECTS:
             if defect == 'unannotated_all' and x['marks']:
                 continue          # only expressible on a node without marks
@@ -112,6 +139,7 @@ def emit(d):
          'from ml_pipeline_engine.dag_builders.annotation.marks import RecurrentSubGraph, SwitchCase',
          'from ml_pipeline_engine.node import ProcessorBase, RecurrentProcessor, build_node',
          'from ml_pipeline_engine.node.enums import NodeTag',
+         'from ml_pipeline_engine.types import NodeBase',
          '']
     dests = {m['node'] for x in d['decls'] for m in x['marks'] if m['kind'] == 'rec'}
     starts = {m['start'] for x in d['decls'] for m in x['marks'] if m['kind'] == 'rec'}
@@ -136,6 +164,10 @@ def emit(d):
         if defect == 'notclass':
             L += ['def %s():' % cls, '    """not a class"""', '    return None', '']
             continue
+        if x.get('derives') and defect == 'none':
+            L += ['class %s(N_%s):' % (cls, x['derives']), '    """generated node %s"""' % nid, '    name = %r' % nid,
+                  '    verbose_name = %r' % ('Node ' + nid), '']
+            continue
         params = ['self']
         tail = []
         if defect in ('unannotated_some', 'unannotated_all'):
@@ -151,10 +183,14 @@ def emit(d):
         if nid in starts and defect != 'rec_noaddl':
             tail.append('additional_data=None' if defect == 'unannotated_all' else 'additional_data: t.Any = None')
         ret = '' if defect == 'unannotated_all' else ' -> t.Any'
-        if defect == 'unannotated_some' and not x['marks'] and nid != d['input'] and nid not in starts:
+        if defect in ('unannotated_some', 'unannotated_default') and not x['marks'] and nid != d['input'] and nid not in starts:
             tail.append('y: int = 0')
+        if defect == 'unannotated_default':
+            tail.append('bare=2')          # no annotation, but a default value: still an un-annotated parameter
         params += tail
         base = 'RecurrentProcessor' if (nid in dests and defect != 'rec_noproto') else 'ProcessorBase'
+        if x.get('plainbase') and base == 'ProcessorBase':
+            base = 'NodeBase'          # a node that implements the node interface directly: no node_type, id node__<name>
         if defect == 'nobase':
             base = 'object'
         tags = {'inline': '(NodeTag.non_async,)', 'process': '(NodeTag.process,)'}.get(x.get('mode'), '()')
@@ -164,7 +200,10 @@ def emit(d):
             if defect == 'generic_partial':
                 gparams.append('left_generic: InputGeneric(t.Type[ProcessorBase])')
             L += ['class G_%s(%s):' % (nid, base), '    """generic base of %s"""' % nid, '    name = %r' % ('g_' + nid),
-                  '    %s process(%s) -> t.Any:' % (adef, ', '.join(gparams)), '        return None', '']
+                  '    %s process(%s) -> t.Any:' % (adef, ', '.join(gparams))]
+            if x.get('gdoc'):
+                L += ['        """generic work of %s"""' % nid]
+            L += ['        return None', '']
             L += ['%s = build_node(G_%s, node_name=%r, class_name=%r, %s)' % (
                 cls, nid, nid, 'Generic' + nid, ', '.join('%s=%s' % (m['kw'], ann(m)) for m in x['marks'])), '']
             continue
@@ -198,7 +237,10 @@ def load(d, directory):
 
 def short(nid):
     nid = str(nid)
-    return nid[len('processor__'):] if nid.startswith('processor__') else nid
+    for prefix in ('processor__', 'node__'):
+        if nid.startswith(prefix):
+            return nid[len(prefix):]
+    return nid
 
 
 def export_dag(dag, d):
